@@ -256,6 +256,11 @@ static void runCases() {
     if (nseen++ < 2) sample("%s jobs=%ld interleaving-signature=%016llx", hist.c(), st, (unsigned long long)sig);
     endCase(sig, nclients >= 2 && st >= 4);
   }
+  // shrink phase right before the pool is destroyed (static destructor at exit): after a long idle period a few cheap calls make the pool retire several
+  // workers in a row, so that contexts of already retired workers are still listed when ~ThreadPool runs (it must not wait for jobs nobody consumes)
+  if (g_cfg >= 0) { __atomic_fetch_add(&g_skewMs, 5000, RLX); setctx("Future/shrink-phase-before-exit");
+    for (int k = 0; k < 12; ++k) { Future<void> f; f.start(&fv1, (long)(2 * (k % 4))); f.join(); if (k % 3 == 2) { struct timespec ts = { 0, 200000 }; nanosleep(&ts, 0); } cnt("shrink_phase_calls"); }
+    for (long id = 0; id < 8; ++id) g_exec[id] = g_done[id] = 0; }
   static const char* pn[NPOINTS] = { "p0", "push_after_cas", "push_before_publish", "pop_after_cas", "pop_before_release", "fastsignal_set", "fastsignal_reset", "fastsignal_wait", "worker_pop_failed", "worker_after_reset", "worker_before_wait", "worker_dequeued", "run_queue_full", "run_after_reset", "run_before_wait", "run_before_enqueued_set", "run_after_enqueued_set", "run_spawn_worker", "run_retire_worker", "future_set", "thread_start_after_create" };
   for (int i = 1; i < NPOINTS; ++i) { char nm[64]; snprintf(nm, sizeof nm, "point_%s", pn[i]); cnt(nm, __atomic_load_n(&g_pointHits[i], RLX)); if (__atomic_load_n(&g_pointHits[i], RLX)) setItem("points_hit", pn[i]); }
   cnt("distinct_interleaving_signatures", nsigs); cnt("gated_job_waits", g_gatedWaits);
